@@ -644,3 +644,56 @@ def sx_fbd_of_library(tree):
         return "(%s)" % " ".join(vs), "(%s)" % " ".join(es), st
     except (KeyError, IndexError, TypeError):
         return None
+
+
+# ---- a library: several function blocks and programs ----
+def lib_units(rng, depth=1, edges_in_programs=True):
+    """(list of unit sexps, lexemes): each unit (fb|program name (vars) (edges) (stmts))"""
+    units, lx = [], []
+    for k in range(rng.choice([1, 2, 2, 3])):
+        kind = rng.choice(["fb", "fb", "program"])
+        name = "u%d" % k
+        d = D_(rng)
+        vs, es, dl = d.blocks()
+        if kind == "program" and es and not edges_in_programs:
+            continue
+        g = G_(rng, depth=depth)
+        ss, sl = g.stmts(0, 0)
+        lx += [kw("FUNCTION_BLOCK" if kind == "fb" else "PROGRAM"), ident(name)] + dl + sl + [kw("END_FUNCTION_BLOCK" if kind == "fb" else "END_PROGRAM")]
+        units.append("(%s %s (%s) (%s) (%s))" % (kind, name, " ".join(vs), " ".join(es), " ".join(ss)))
+    return units, lx
+
+
+def sx_units_of_library(tree):
+    """the units of a parsed library in the same notation, or None outside the notation"""
+    try:
+        out = []
+        for el in tree[1]["elements"]:
+            if el[0] == "FunctionBlockDeclaration":
+                kind, edges = "fb", el[1]["edge_variables"]
+            elif el[0] == "ProgramDeclaration":
+                kind, edges = "program", []
+                if el[1]["access_variables"]:
+                    return None
+            else:
+                return None
+            fb = el[1]
+            vs = [sx_vardecl(v) for v in fb["variables"]]
+            es = []
+            for e in edges:
+                b = e[1]
+                es.append("(edge %s %s %s)" % (_name(b["identifier"]).lower(), {"rising": "r", "falling": "f"}[str(b["direction"]).lower()],
+                                               _QUAL[str(b["qualifier"]).lower()]))
+            body = fb["body"]
+            if body == "empty" or (isinstance(body, tuple) and body[0] == "Empty"):
+                st = "()"
+            elif isinstance(body, tuple) and body[0] == "Statements":
+                st = sx_list(body[1]["body"])
+            else:
+                st = None
+            if st is None or any(v is None for v in vs):
+                return None
+            out.append("(%s %s (%s) (%s) %s)" % (kind, _name(fb["name"]).lower(), " ".join(vs), " ".join(es), st))
+        return out
+    except (KeyError, IndexError, TypeError):
+        return None
